@@ -88,25 +88,25 @@ pub fn c17_asin_acos_domain() {
 #[cfg_attr(kani, kani::proof)]
 #[cfg_attr(kani, kani::unwind(17))]
 pub fn c17_exact_points() {
-    let z = tf(0.0, 0.0);
+    let z = gtf(0.0, 0.0);
     let a = z.asin();
     assert!(a.hi() == 0.0 && a.lo() == 0.0);
     let b = z.atan();
     assert!(b.hi() == 0.0 && b.lo() == 0.0);
-    let c = tf(1.0, 0.0).acos();
+    let c = gtf(1.0, 0.0).acos();
     assert!(c.hi() == 0.0 && c.lo() == 0.0);
     let pi2 = rc(R::FRAC_PI_2);
     let pi = rc(R::PI);
-    let d = tf(1.0, 0.0).asin() - pi2;
+    let d = gtf(1.0, 0.0).asin() - pi2;
     assert!(d.hi().abs() <= pow2(-100));
-    let e = tf(-1.0, 0.0).asin() + pi2;
+    let e = gtf(-1.0, 0.0).asin() + pi2;
     assert!(e.hi().abs() <= pow2(-100));
-    let f = tf(-1.0, 0.0).acos() - pi;
+    let f = gtf(-1.0, 0.0).acos() - pi;
     assert!(f.hi().abs() <= pow2(-100));
-    assert!(bits_eq(tf(0.5, 0.0).atan(), rc(R::ATAN_FRAC_1_2)));
-    assert!(bits_eq(tf(1.0, 0.0).atan(), rc(R::FRAC_PI_4)));
-    assert!(bits_eq(tf(1.5, 0.0).atan(), rc(R::ATAN_FRAC_3_2)));
-    assert!(bits_eq(tf(-0.5, 0.0).atan(), -rc(R::ATAN_FRAC_1_2)));
+    assert!(bits_eq(gtf(0.5, 0.0).atan(), rc(R::ATAN_FRAC_1_2)));
+    assert!(bits_eq(gtf(1.0, 0.0).atan(), rc(R::FRAC_PI_4)));
+    assert!(bits_eq(gtf(1.5, 0.0).atan(), rc(R::ATAN_FRAC_3_2)));
+    assert!(bits_eq(gtf(-0.5, 0.0).atan(), -rc(R::ATAN_FRAC_1_2)));
     reached();
 }
 
